@@ -130,10 +130,8 @@ impl Extension {
 //@   sigrewrite `header_ext: &HeaderExtension<'_>` => `header_ext: &HeaderExtension`
 //@   sigrewrite `batch: &mut Batch<'_>` => `batch: &mut Batch`
 //@   rewrite `let mut affected_pos = vec![];` => `let mut affected_pos: Vec<u64> = Vec::new();`
-//@   rewrite `for out in b.outputs() {` => `for out in it: b.outputs().iter()`
-//@   rewrite `for (out, pos) in &spent {` => `for sp in it2: spent.iter()`
-//@   rewrite `self.apply_input(out.commitment(), *pos)?;` => `{ let out = &sp.0; let pos = &sp.1; self.apply_input(out.commitment(), *pos)?;`
-//@   rewrite `let pos = self.apply_output(out, batch)?;` => `{ let pos = self.apply_output(out, batch)?;`
+//@   rewrite `for out in b.outputs() {` => `for out in it: b.outputs().iter() {`
+//@   rewrite `for (out, pos) in &spent {` => `for sp in it2: spent.iter() { let out = &sp.0; let pos = &sp.1;`
 //@   rewrite `let spent: Vec<_> = spent.into_iter().map(|(_, pos)| pos).collect();` => `let ghost spent0 = spent@; let spent: Vec<CommitPos> = positions_of(spent);`
 //@   loop 1:
 //@+    invariant
